@@ -259,6 +259,29 @@ LIB["torch.isfinite"] = _fun1("isfinite", V.f_isfinite, BOOL)
 LIB["torch.floor"] = _fun1("floor", V.f_floor)
 
 
+@lib("torch.div", "torch.divide")
+def torch_div(interp, a, b, rounding_mode=None):
+    if rounding_mode is None:
+        return T.tbinop("truediv", a, b)
+    if rounding_mode == "floor":
+        return T.tbinop("floordiv", a, b)
+    if rounding_mode == "trunc":
+        da = a.dtype if isinstance(a, STensor) else T.scalar_dtype(a)
+        db = b.dtype if isinstance(b, STensor) else T.scalar_dtype(b)
+        if da == INT and db == INT:
+            def f(x, y):
+                q = V.i_floordiv(V.i_abs(x), V.i_abs(y))
+                neg = V.b_xor(V.i_lt(x, 0), V.i_lt(y, 0))
+                return V.ite(neg, V.i_neg(q), q)
+            return T.elementwise(f, a, b, dtype=INT)
+    raise Unsupported("torch.div rounding_mode=%r" % (rounding_mode,))
+
+
+@lib("torch.remainder")
+def torch_remainder(interp, a, b):
+    return T.tbinop("mod", a, b)
+
+
 @lib("torch.square")
 def torch_square(interp, x):
     return T.tbinop("mul", x, x)
